@@ -297,3 +297,106 @@ def hist_driver(case, api):
                     obs.append([enc.enc(val)])
             rec["obs"] = obs
     return {"id": case["id"], "steps": steps, "cut": cut}
+
+
+# ==================================================================================================
+# Part B: one cell of the call-form x function-kind product.  cell = {id, form, kind}
+BODY = "return [this, arguments.length, arguments[0], arguments[1], a, b];"
+KIND_SETUP = {
+    "decl": "function fd(a, b){ %s } var f = fd; var CT = fd; var recv = {f: f};" % BODY,
+    "expr": "var fe = function(a, b){ %s }; var f = fe; var CT = fe; var recv = {f: f};" % BODY,
+    "named": "var fn = function nm(a, b){ %s }; var f = fn; var CT = fn; var recv = {f: f};" % BODY,
+    "arrow": "var host = {mk: function(){ return (a, b) => [this, arguments.length, arguments[0], arguments[1], a, b]; }};"
+             " var f = host.mk(7, 8); var CT = f; var recv = {f: f};",
+    "method": "var recv = {f(a, b){ %s }}; var f = recv.f; var CT = f;" % BODY,
+    "propfn": "var recv = {f: function(a, b){ %s }}; var f = recv.f; var CT = f;" % BODY,
+    "getter": "var recv = {get f(){ return [this, arguments.length, arguments[0], arguments[1], undefined, undefined]; }};"
+              " var f = Object.getOwnPropertyDescriptor(recv, 'f').get; var CT = f;",
+    "bound": "function fd(a, b){ %s } var f = fd.bind(bt, 5); var CT = fd; var recv = {f: f};" % BODY,
+    "native": "var f = Object.prototype.valueOf; var CT = f; var recv = {f: f};",
+}
+FORM_CALL = {
+    "method": "recv.f(1, 2)", "plain": "__t(1, 2)", "call": "f.call(x1, 1, 2)", "apply": "f.apply(x1, [1, 2])",
+    "bind": "f.bind(x1, 1)(2)", "new": "new f(1, 2)", "arrow": "recv.go()",
+}
+RETS = {"none": "", "num": "return 5;", "str": "return 's';", "null": "return null;", "undef": "return undefined;",
+        "bool": "return true;", "obj": "return ro;", "arr": "return ra;", "fn": "return rf;"}
+CTORS = {"decl": "function C(){ this.p = 1; %s } var K = C;", "expr": "var C = function(){ this.p = 1; %s }; var K = C;",
+         "bound": "function C(){ this.p = 1; %s } var K = C.bind(bt);"}
+CHAINS = {
+    "assign": "B.prototype = Object.create(A.prototype); B.prototype.constructor = B;",
+    "setproto": "Object.setPrototypeOf(B.prototype, A.prototype);",
+    "literal": "B.prototype = {__proto__: A.prototype, constructor: B};",
+}
+
+
+def call_driver(case, api):
+    from microjs import values as V
+    form, kind = case["form"], case["kind"]
+    ctx = api.new_context(time_limit=5.0)
+    enc = Enc(V)
+    got = []
+    ctx.set("__reg", lambda *a: (enc.register(["recv", "x1", "bt", "host", "ro", "ra", "rf", "CT"], a), None)[1])
+    ctx.set("__emit", lambda *a: (got.append(a), None)[1])
+    pre = CLS + "var bt = {tag: 'bt'}; var x1 = {tag: 'x1'}; var host; var recv; var ro = {q: 2}; var ra = [9]; var rf = function(){}; var CT;\n"
+    if form == "newret":
+        src = pre + CTORS[kind] % RETS[case["ret"]] + """
+        __reg(recv, x1, bt, host, ro, ra, rf, CT);
+        var r; var out = 'ok';
+        try { r = new K(); } catch (e) { out = '!' + __cls(e); }
+        var isobj = (typeof r === 'object' || typeof r === 'function') && r !== null;
+        __emit(out, r, isobj && typeof r === 'object' ? Object.getPrototypeOf(r) === C.prototype : false,
+               isobj ? r instanceof C : false, isobj ? r.p : undefined);
+        """
+        o = api.eval_outcome(ctx, src + "'done'", wall=20.0, cap=2_000_000)
+        if outcome_str(o) != "done" or len(got) != 1:
+            return {"id": case["id"], "obs": {"out": "fail:" + outcome_str(o)}}
+        out, r, linked, inst, p = got[0]
+        return {"id": case["id"], "obs": {"out": str(out), "this": enc.enc(r), "linked": enc.enc(linked), "inst": enc.enc(inst),
+                                          "p": enc.enc(p)}}
+    if form == "chain":
+        src = pre + "function A(){ this.a = 1; } function B(){ A.call(this); this.b = 2; }\n" + CHAINS[kind] + """
+        var out = 'ok'; var o; var r = [];
+        try { o = new B(); } catch (e) { out = '!' + __cls(e); }
+        var checks = [function(){ return o instanceof B; }, function(){ return o instanceof A; }, function(){ return o.a; },
+                      function(){ return o.b; }, function(){ return Object.getPrototypeOf(o) === B.prototype; },
+                      function(){ return Object.getPrototypeOf(Object.getPrototypeOf(o)) === A.prototype; },
+                      function(){ return A.prototype.isPrototypeOf(o); }, function(){ return o.constructor === B; },
+                      function(){ return Object.prototype.hasOwnProperty.call(o, 'a'); }];
+        for (var i = 0; i < checks.length; i++) { try { r.push(checks[i]()); } catch (e) { r.push('!' + __cls(e)); } }
+        __emit(out, r);
+        """
+        o = api.eval_outcome(ctx, src + "'done'", wall=20.0, cap=2_000_000)
+        if outcome_str(o) != "done" or len(got) != 1:
+            return {"id": case["id"], "obs": {"out": "fail:" + outcome_str(o)}}
+        out, r = got[0]
+        return {"id": case["id"], "obs": {"out": str(out), "r": [enc.enc(e) for e in r._elements]}}
+    call = FORM_CALL[form]
+    go = "(() => this.f(1, 2))()"
+    if kind == "getter":
+        go = "(() => this.f)()"
+        if form == "method":
+            call = "recv.f"
+    src = pre + KIND_SETUP[kind] + ("\nObject.defineProperty(recv, 'go', {value: function(){ return %s; }, writable: true, enumerable: true, configurable: true});"
+                                    " var __t = f;\n" % go) + """
+    __reg(recv, x1, bt, host, ro, ra, rf, CT);
+    var R; var out = 'ok';
+    try { R = %s; } catch (e) { out = '!' + __cls(e); }
+    var P = (typeof R === 'object' && R !== null && R.length === 6) ? R : [R, undefined, undefined, undefined, undefined, undefined];
+    var T = P[0];
+    var isobj = typeof T === 'object' && T !== null;
+    var len; var nam;
+    try { len = f.length; } catch (e) { len = '!' + __cls(e); }
+    try { nam = f.name; } catch (e) { nam = '!' + __cls(e); }
+    var linked = false; var inst = false;
+    try { linked = isobj ? Object.getPrototypeOf(T) === CT.prototype : false; } catch (e) { linked = '!' + __cls(e); }
+    try { inst = isobj ? T instanceof CT : false; } catch (e) { inst = '!' + __cls(e); }
+    __emit(out, T, linked, inst, P[1], P[2], P[3], P[4], P[5], len, nam);
+    """ % call
+    o = api.eval_outcome(ctx, src + "'done'", wall=20.0, cap=2_000_000)
+    if outcome_str(o) != "done" or len(got) != 1:
+        return {"id": case["id"], "obs": {"out": "fail:" + outcome_str(o)}}
+    out, T, linked, inst, alen, a0, a1, pa, pb, ln, nm = got[0]
+    e = enc.enc
+    return {"id": case["id"], "obs": {"out": str(out), "this": e(T), "linked": e(linked), "inst": e(inst), "alen": e(alen),
+                                      "a0": e(a0), "a1": e(a1), "pa": e(pa), "pb": e(pb), "length": e(ln), "name": e(nm)}}
